@@ -299,6 +299,10 @@ func c18(c *ev.Ctx) {
 		{"assign-in-condition", "if (a = 1) { t(1); } return 2;"},
 		{"chained-assignment", "a = b = 1; return a;"},
 		{"postfix-in-value-position", "b = 1; a = b++; return a;"},
+		{"statement-in-value-position", "x = if (a) { 1 }; return x;"},
+		{"loop-in-value-position", "x = foreach e in [1] { }; return x;"},
+		{"parenthesised-assignment-as-value", "return [(y = 3)];"},
+		{"function-definition-as-value", "return function f() { return 1; };"},
 	} {
 		id := "probe:" + pr.name
 		if !c.Want(id) {
